@@ -1,6 +1,7 @@
-//! `./check --setup`: build everything the checks need besides the harness itself.
+//! `./check --setup`: build everything the checks need besides the harness itself
+//! (the CLI binary and the Python extension of /repo, into /verif/target-repo).
 
 pub fn main() -> i32 {
     println!("setup: harness built");
-    0
+    crate::checks::c19::setup()
 }
